@@ -856,6 +856,10 @@ func (s *Subscription) reaccess(t *rescache.Throttle) {
 		return
 	}
 
+	// Any cached access result is invalid from this point on, also when the
+	// reaccess itself has to wait for queued events.
+	s.access = nil
+
 	if s.queueFlag != 0 {
 		s.flags |= flagReaccess
 		return
